@@ -10,7 +10,7 @@ import hashlib
 import os
 from pathlib import Path
 
-from . import patch
+from . import manifests, patch
 from .common import sha
 
 ABSENT = -2
@@ -177,6 +177,7 @@ class Projector:
             "files": False, "mayChange": [], "mustChange": [],
             "sites": False, "siteMay": {}, "siteMust": {}, "exit": -1,
             "sel": False, "queues": [], "faults": False, "mustFail": [],
+            "deps": False, "cand": [], "mustOne": False,
         }
         ein = self.expect_in
         if "mayChange" in ein:
@@ -187,6 +188,10 @@ class Projector:
             exp["sites"] = True
             exp["siteMay"] = {self.tok(r): list(v) for r, v in ein["siteMay"].items()}
             exp["siteMust"] = {self.tok(r): list(v) for r, v in ein.get("siteMust", {}).items()}
+        if "cand" in ein:
+            exp["deps"] = True
+            exp["cand"] = [self.tok(r) for r in ein["cand"]]
+            exp["mustOne"] = bool(ein.get("mustOne"))
         if "mustFail" in ein:
             exp["faults"] = True
             exp["mustFail"] = [{"c": c, "f": self.tok(f)} for c, f in ein["mustFail"]]
@@ -327,7 +332,8 @@ class Projector:
                 self.notes.append("deps: changeset without chosen store")
             silent = [s for s in e["stores"] if before[s] != after[s]]
             return {"ev": "Deps", "c": e["c"], "store": "none", "new": 0, "post": 0,
-                    "othersUntouched": not silent, "err": e["err"] or "none", "shapeOk": True}
+                    "othersUntouched": not silent, "err": e["err"] or "none", "shapeOk": True,
+                    "wanted": bool(e.get("wanted")), "parsesOk": True, "keptOk": True, "addedOk": True}
         cs = css[0]
         store_rel = cs["path"]
         pre = self.ver_of_key(before.get(store_rel, "absent")) if store_rel in before else ABSENT
@@ -339,8 +345,37 @@ class Projector:
         shape_ok = bool(cs["changes"]) and all(1 <= ch["line"] <= nl and (ch["desc"] or "").strip() for ch in cs["changes"]) and bool(cs["diff"])
         if not shape_ok:
             self.notes.append(f"deps changeset malformed: lines {[ch['line'] for ch in cs['changes']]} of {nl}")
+        parses_ok = kept_ok = added_ok = True
+        pre_text = self.texts.get(pre)
+        if new_text is not None and pre_text is not None and store_rel.split("/")[-1] in manifests.PARSERS:
+            try:
+                before_reqs = manifests.parse(store_rel, pre_text)
+            except manifests.Unparseable:
+                before_reqs = None
+            try:
+                after_reqs = manifests.parse(store_rel, new_text)
+            except manifests.Unparseable as ex:
+                after_reqs = None
+                parses_ok = False
+                self.notes.append(f"deps: {store_rel} after the change: {ex}")
+            if before_reqs is not None and after_reqs is not None:
+                from collections import Counter
+
+                lost = Counter(before_reqs) - Counter(after_reqs)
+                lost_comments = Counter(manifests.comments(store_rel, pre_text)) - Counter(manifests.comments(store_rel, new_text))
+                if lost or lost_comments:
+                    kept_ok = False
+                    self.notes.append(f"deps: lost from {store_rel}: {list(lost)[:3]} {list(lost_comments)[:3]}")
+                for w in e.get("wanted") or []:
+                    name = manifests.norm(manifests.Requirement(w).name)
+                    nb = sum(1 for r in before_reqs if r[0] == name)
+                    na = sum(1 for r in after_reqs if r[0] == name)
+                    if not (nb == 0 and na == 1):
+                        added_ok = False
+                        self.notes.append(f"deps: {name} declared {nb} time(s) before and {na} after in {store_rel}")
         return {"ev": "Deps", "c": e["c"], "store": self.tok(store_rel), "new": new, "post": post,
-                "othersUntouched": others_untouched and store_rel == store, "err": e["err"] or "none", "shapeOk": shape_ok}
+                "othersUntouched": others_untouched and store_rel == store, "err": e["err"] or "none", "shapeOk": shape_ok,
+                "wanted": bool(e.get("wanted")), "parsesOk": parses_ok, "keptOk": kept_ok, "addedOk": added_ok}
 
     def _report(self, e: dict) -> dict:
         rep = e["report"]
